@@ -111,6 +111,8 @@ func H_two() {
 	symx.KnownPanic("C11-shared-superglobal-cache", "on superglobal cache@", true)
 	// same root cause: B resets the cache to nil between A's nil test and A's use of it
 	symx.KnownPanic("C11-shared-superglobal-cache", "nil pointer dereference@(*github.com/php-any/origami/data.ObjectValue).GetProperty,(*github.com/php-any/origami/data.ObjectValue).SetProperty", true)
+	// a request that completed earlier on the same handler (state it left behind is in place)
+	h.ServeHTTP(&recorder{hdr: http.Header{}}, request("9"))
 	qs := [2]string{"1", "2"}
 	recs := [2]*recorder{{hdr: http.Header{}}, {hdr: http.Header{}}}
 	var wg sync.WaitGroup
@@ -180,6 +182,8 @@ func H_two_locals() {
 	// the unsynchronised reset of the package-level caches at the start of every request is part of
 	// the recorded finding (a race on those cells only; any other race or any wrong body is a violation)
 	symx.KnownPanic("C11-shared-superglobal-cache", "on superglobal cache@", true)
+	// a request that completed earlier on the same handler (state it left behind is in place)
+	h.ServeHTTP(&recorder{hdr: http.Header{}}, request("9"))
 	qs := [2]string{"1", "2"}
 	recs := [2]*recorder{{hdr: http.Header{}}, {hdr: http.Header{}}}
 	var wg sync.WaitGroup
@@ -243,6 +247,13 @@ func H_two_middleware() {
 		symx.Shared(c, "superglobal cache")
 	}
 	symx.KnownPanic("C11-shared-superglobal-cache", "on superglobal cache@", true)
+	// a request that completed earlier through the same stack (whatever it left behind — pooled
+	// writers, cached contexts — is there when the two concurrent requests arrive)
+	if symx.Param("warm", 1) == 1 {
+		warm := &recorder{hdr: http.Header{}}
+		chain.ServeHTTP(warm, request("9"))
+		symx.Assert(string(warm.body) == "pre:9;h:9;post:T9;", "warm-up request alone")
+	}
 	qs := [2]string{"1", "2"}
 	recs := [2]*recorder{{hdr: http.Header{}}, {hdr: http.Header{}}}
 	var wg sync.WaitGroup
